@@ -233,6 +233,15 @@ Theorem C02_ce_binary64_error : forall p mu c bars M K, ce_new FOps p mu = Ok c 
       (Rabs (FR lg - (FR mx - nth k atrs 0 * FR mu)) <= D)%R /\ (Rabs (FR sh - (FR mn + nth k atrs 0 * FR mu)) <= D)%R.
 Proof. exact ce_float_error. Qed.
 
+(* non-vacuity: two ordinary bars, the multipliers 2 and -2.5, M = 100, K = 3 meet every hypothesis of the KeltnerChannel / ChandelierExit
+   error theorems above *)
+Example C02_float_hypotheses_example :
+  (exists k, kc_new FOps 10 2%float = Ok k) /\ (exists c, ce_new FOps 22 3%float = Ok c) /\
+  Forall (okbar3 100) ex_bars /\ Forall okF (map b_high ex_bars) /\ Forall okF (map b_low ex_bars) /\
+  finF 2%float /\ (Rabs (FR 2%float) <= 3)%R /\ finF (-2.5)%float /\ (Rabs (FR (-2.5)%float) <= 3)%R /\
+  (1 <= 100)%R /\ (4 * (1 + 3) * 100 <= bpow radix2 900)%R.
+Proof. exact kc_ce_hypotheses_example. Qed.
+
 From Coq Require Import List Floats.
 From TA Require Import Generic FloatInst XQ Run2 Par.Hom Par.Var Par.Oracle.
 (* the T2 oracle (exact rational run, evaluated by the checks) is the image of the exact real run these
